@@ -2753,7 +2753,10 @@ void CWallet::LoadLockedCoin(const COutPoint& coin, bool persistent)
 bool CWallet::LockCoin(const COutPoint& output, bool persist)
 {
     AssertLockHeld(cs_wallet);
-    LoadLockedCoin(output, persist);
+    auto [it, inserted] = m_locked_coins.emplace(output, persist);
+    // A coin that is already locked in memory only becomes persistently locked, so that
+    // UnlockCoin() also erases the database record written below.
+    if (!inserted && persist) it->second = true;
     if (persist) {
         WalletBatch batch(GetDatabase());
         return batch.WriteLockedUTXO(output);
